@@ -694,6 +694,17 @@ def lexer_mode_rule(F, rep):
                 c = i["c"]
                 if c.get("k") != "Let" and f in [self_field(x) for x in conjuncts(c)]:
                     branches.append((i["then"], i.get("l"), n))
+        # `if std::mem::take(&mut self.flag)` / `mem::replace(&mut self.flag, false)`: the test clears the flag whatever its value
+        taken = []
+        for n, h in meths.items():
+            for c, _ in find_hir(h["body"], lambda x: x.get("k") == "Call" and (x.get("callee") or "") in ("core::mem::take", "core::mem::replace") and x.get("args")):
+                a0 = c["args"][0]
+                if a0.get("k") == "AddrOf" and a0.get("mut") and self_field(a0["e"]) == f:
+                    if c["callee"].endswith("take") or (len(c["args"]) > 1 and strip(c["args"][1]).get("k") == "Lit" and strip(c["args"][1]).get("v") is False):
+                        taken.append((c.get("l"), n))
+        if taken and not branches:
+            rep.ok(rid, key, "tested and cleared in one step by mem::take / mem::replace(.., false) (line %s)" % taken[0][0])
+            continue
         if not branches:
             rep.violation(rid, key, "mode flag `%s` is switched on by a setter but no branch of the lexer is selected by it and it is never cleared unconditionally" % f, "feel-parser/src/lexer.rs")
             continue
